@@ -42,6 +42,13 @@ inline void furnishFile(nix::File &f) {
     mt.addReference(a2);
     mt.createFeature(a1, nix::LinkType::Indexed);
     b.createMultiTag("zz_mtag_bare", "t", pos); // no references, no features, no extents
+    // positions with a single column for 2-D data: the second dimension is not specified
+    nix::DataArray pos1 = b.createDataArray("zz_pos1", "t", nix::DataType::Double, nix::NDSize({3, 1}));
+    pos1.appendSetDimension();
+    pos1.appendSetDimension();
+    nix::MultiTag mtc = b.createMultiTag("zz_mtag_col", "t", pos1);
+    mtc.addReference(a2);
+    mtc.createFeature(a2, nix::LinkType::Tagged);
     b.createTag("zz_tag_bare", "t", {0.0});
     nix::Group g = b.createGroup("zz_group", "t");
     g.addDataArray(a2);
